@@ -110,7 +110,7 @@ class Impl:
             return num(tok[2:])
         if tok.startswith("nd:"):
             return self.ndlit(tok)
-        return self.get(tok, FlodymArray)
+        return self.get(tok, (FlodymArray, np.ndarray))
 
     # ------------------------------------------------------------------ results
     def put_arr(self, htok, a):
@@ -217,6 +217,13 @@ class Impl:
             f = {"lt": lambda v: v < c, "gt": lambda v: v > c, "ne": lambda v: v != c}[t[2]]
             rows = x.items_where(f)
             return "ok " + "|".join(",".join(fmt_item(i) for i in r) for r in rows_as_items(rows, x))
+        if op == "nd":
+            self.objs[self.h(t[1])] = np.array([num(v) for v in t[3:]], dtype=float).reshape(shape(t[2]))
+            return "ok " + fmt_nd(self.objs[self.h(t[1])])
+        if op == "ndwrite":
+            a = self.get(t[1], np.ndarray)
+            a.flat[int(t[2])] = num(t[3])
+            return "ok " + fmt_nd(a)
         if op == "dump":
             return "ok " + fmt_arr(self.get(t[1], FlodymArray))
         if op == "dumpall":
